@@ -262,7 +262,7 @@ def run_cg(cfg):
 
 def _linop(cfg):
     shape = tuple(cfg['shape'])
-    A = _scaled_rect(shape, cfg['mat'], cfg['ill'])
+    A = _scaled_rect(shape, cfg['mat'], cfg['ill']) * cfg.get('ascale', 1.0)
     wk = cfg['w']
     impl = 'ref' if wk == 'wa' else cfg.get('impl', 'odl')
     op = _matop(A, wk, impl)
@@ -371,14 +371,8 @@ def run_landweber(cfg):
                     # documented default 1 / op.norm(estimate=True) ** 2: the estimate starts
                     # from random noise; the stream is owned by the configuration
                     _seed(cfg)
-                    est = _matop(A, cfg['w'], 'ref' if cfg['w'] == 'wa' else
-                                 cfg.get('impl', 'odl')).norm(estimate=True)
-                    _seed(cfg)
-                    omega_eff = 1.0 / est ** 2
+                    omega_eff = None          # observed from the first step below
                     kw = {}
-                    if not omega_eff * nrm ** 2 < 2.0 * (1 - 1e-9):
-                        skipped += 1          # estimate too low: step outside (0, 2/||A||^2)
-                        continue
                 else:
                     omega_eff = om / nrm ** 2
                     kw = {'omega': omega_eff}
@@ -391,6 +385,27 @@ def run_landweber(cfg):
                     continue
                 evals += 1
                 its = [x0] + rec.it
+                if omega_eff is None:
+                    # the step the solver really took: x1 = x0 - omega A*(A x0 - b)
+                    g = Aadj.dot(A.dot(x0) - b)
+                    if not np.any(g):
+                        continue
+                    omega_eff = float(np.sum(wx * (x0 - its[1]) * g) / np.sum(wx * g * g))
+                    _seed(cfg)
+                    est = _matop(A, cfg['w'], 'ref' if cfg['w'] == 'wa' else
+                                 cfg.get('impl', 'odl')).norm(estimate=True)
+                    if not 0 < omega_eff * nrm ** 2 < 2.0 and est < EST_OK * nrm:
+                        skipped += 1          # poor power-method estimate: counted, not judged
+                        continue
+                    if not 0 < omega_eff * nrm ** 2 < 2.0:
+                        # docstring: 0 < omega < 2/||A||^2 guarantees convergence, default
+                        # 1/||A||^2 (estimate): the default must lie inside that interval
+                        _first(first, 'default_omega_violates_documented_condition',
+                               'A=%s wx=%s wy=%s b=%r x0=%r: default omega=%r, omega*||A||^2=%r '
+                               'not in (0, 2) (||A||=%r)' % (
+                                   A.tolist(), wx.tolist(), wy.tolist(), b.tolist(), x0.tolist(),
+                                   omega_eff, omega_eff * nrm ** 2, nrm))
+                        continue
                 res = [R.wnorm(A.dot(z) - b, wy) for z in its]
                 tol = 1e-12 * ((1.0 if tag == 'unit' else 0.0) + R.wnorm(b, wy) + max(res))
                 info = 'A=%s wx=%s wy=%s b=%r x0=%r omega=%r (=%s*||A||^-2) residuals=%s' % (
@@ -902,6 +917,110 @@ def run_power_ref(cfg):
             sigs.add('pmref:%s:%s' % (cfg['op'], est >= true * (1 - 1e-3)))
     return {'evals': evals, 'viol': _viol(site, first), 'sig': sorted(sigs)}
 
+
+# ---- the default step-size rules are functions: judged directly against their docstrings ------
+
+RULE_BASE = [[[0.8, 0.6], [-0.6, 0.8]], [[1.0, 0.0], [0.0, 0.5]], [[0.0, 1.0], [-1.0, 0.0]]]
+RULE_NORMS = [0.25, 0.5, 1.0, 2.0, 8.0]
+RULE_BLOCKS = [[1.0, 1.0], [1.0, 1.125], [0.25, 8.0], [2.0, 2.0], [0.5, 0.25],
+               [1.0, 1.0, 1.0], [1.0, 1.125, 0.875], [0.25, 1.0, 8.0], [0.5, 0.5, 0.5],
+               [1.0, 1.0, 1.0, 1.0], [2.0, 1.875, 2.125, 2.0], [0.25, 0.5, 2.0, 8.0]]
+
+
+def run_steprule(cfg):
+    """pdhg_stepsize / douglas_rachford_pd_stepsize: for every combination of given / not given
+    tau, sigma the returned steps satisfy the condition the docstrings state
+    (tau sigma ||L||^2 < 1, resp. tau sum_i sigma_i ||L_i||^2 < 4; both given: returned as is),
+    with the norms computed exactly from the assembled matrices."""
+    norms = cfg['norms']
+    X = odl.rn(2)
+    ops = [odl.MatrixOperator(c * np.array(RULE_BASE[i % 3]), domain=X, range=odl.rn(2))
+           for i, c in enumerate(norms)]
+    st = cfg['struct']
+    if st == 'single':
+        L = ops[0]
+    elif st == 'broadcast':
+        L = odl.BroadcastOperator(*ops)
+    elif st == 'reduction':
+        L = odl.ReductionOperator(*ops)
+    else:
+        L = odl.DiagonalOperator(*ops)
+    A = _fullmat(L)
+    true = float(np.linalg.svd(A, compute_uv=False)[0])
+    bn = [float(np.linalg.svd(_fullmat(o), compute_uv=False)[0]) for o in ops]
+    first, evals, sigs, skipped = {}, 0, set(), 0
+    site = 'pdhg_stepsize[%s]' % st
+    for tau_in, sig_in in [(None, None), (0.3 / true, None), (None, 0.3 / true),
+                           (3.0 / true, None), (None, 3.0 / true), (0.7, 0.2)]:
+        for as_float in (False, True):
+            _seed(cfg)
+            try:
+                tau, sig = odl.solvers.pdhg_stepsize(true if as_float else L, tau_in, sig_in)
+            except Exception as e:
+                _first(first, 'raises:' + type(e).__name__, 'norms=%s tau=%r sigma=%r: %r' % (
+                    norms, tau_in, sig_in, e))
+                continue
+            evals += 1
+            poor = False
+            if not as_float:
+                _seed(cfg)
+                poor = L.norm(estimate=True) < EST_OK * true
+            info = '%s of blocks with norms %s (||L|| = %r, L passed as %s), tau=%r sigma=%r ' \
+                   'given: returned tau=%r sigma=%r' % (st, norms, true,
+                                                        'float' if as_float else 'operator',
+                                                        tau_in, sig_in, tau, sig)
+            if tau_in is not None and sig_in is not None:
+                if (tau, sig) != (tau_in, sig_in):
+                    _first(first, 'given_steps_not_returned_as_is', info)
+            else:
+                if (tau_in is not None and tau != tau_in) or \
+                        (sig_in is not None and sig != sig_in):
+                    _first(first, 'given_steps_not_returned_as_is', info)
+                if not (tau > 0 and sig > 0 and tau * sig * true ** 2 < 1.0) and poor:
+                    skipped += 1      # estimate of the power method > 2.5 % low: see run_ns
+                elif not (tau > 0 and sig > 0 and tau * sig * true ** 2 < 1.0):
+                    _first(first, 'steps_violate_documented_condition',
+                           '%s: tau*sigma*||L||^2 = %r, must be < 1' % (info,
+                                                                         tau * sig * true ** 2))
+            sigs.add('rule:pdhg:%s:%s:%s' % (st, tau_in is None, sig_in is None))
+    viol = _viol(site, first)
+    if st == 'broadcast' or st == 'single':
+        first = {}
+        site = 'douglas_rachford_pd_stepsize[%d operators]' % (len(ops) if st != 'single' else 1)
+        Ls = ops if st != 'single' else ops[:1]
+        nb = bn[:len(Ls)]
+        sig_given = [0.5 / c ** 2 for c in nb]
+        for tau_in, sig_in in [(None, None), (0.5 / sum(nb), None), (None, sig_given),
+                               (4.0 / sum(nb), None), (0.7, sig_given)]:
+            for as_float in (False, True):
+                _seed(cfg)
+                try:
+                    tau, sig = odl.solvers.douglas_rachford_pd_stepsize(
+                        nb if as_float else Ls, tau_in, sig_in)
+                except Exception as e:
+                    _first(first, 'raises:' + type(e).__name__, 'norms=%s: %r' % (norms, e))
+                    continue
+                evals += 1
+                val = tau * sum(s_ * c ** 2 for s_, c in zip(sig, nb))
+                info = '%d operators with norms %s (passed as %s), tau=%r sigma=%r given: ' \
+                       'returned tau=%r sigma=%r' % (len(Ls), nb, 'floats' if as_float else
+                                                     'operators', tau_in, sig_in, tau, sig)
+                if tau_in is not None and sig_in is not None:
+                    if tau != tau_in or list(sig) != list(sig_in):
+                        _first(first, 'given_steps_not_returned_as_is', info)
+                elif not (tau > 0 and all(s_ > 0 for s_ in sig) and len(sig) == len(Ls)
+                          and val < 4.0):
+                    _seed(cfg)
+                    if not as_float and any(o.norm(estimate=True) < EST_OK * c
+                                            for o, c in zip(Ls, nb)):
+                        skipped += 1
+                        continue
+                    _first(first, 'steps_violate_documented_condition',
+                           '%s: tau*sum(sigma_i ||L_i||^2) = %r, must be < 4' % (info, val))
+                sigs.add('rule:dr:%d:%s:%s' % (len(Ls), tau_in is None, sig_in is None))
+        viol += _viol(site, first)
+    return {'evals': evals, 'viol': viol, 'sig': sorted(sigs), 'skipped': skipped}
+
 # ----------------------------------------------------------------------------------------------
 # (b) non-smooth solvers: problem pool built backwards from a primal-dual pair
 
@@ -1238,6 +1357,15 @@ FAMS = {
     # the same as three-term problem: box constraint + envelope + smooth 1/2||x-a||^2
     'env_h': dict(X=['rn3'], f=('box', -1.0, 2.0), absorb='h_shift', h=('l2sq', 0.5),
                   blocks=[('l1', 1.0, 'D', 'nat', 0.5)], xv=XV, solvers=[FBPD]),
+    # three / four operators with quadratic data terms (unbounded duals): the default step rules
+    # of pdhg (BroadcastOperator of blocks with comparable norms) and douglas_rachford_pd (n >= 3)
+    'multi3': dict(X=['rn3'], f=('l2sq', 1.0), absorb='f_shift',
+                   blocks=[('l2sq', 0.25, 'Q', 'pat'), ('l2sq', 0.25, 'P', 'pat'),
+                           ('l2sq', 0.25, 'I', 'nat')], xv=XV, solvers=PD4, no_accel=True),
+    'multi4': dict(X=['rn3'], f=('l2sq', 1.0), absorb='f_shift',
+                   blocks=[('l2sq', 0.25, 'Q', 'pat'), ('l2sq', 0.25, 'P', 'pat'),
+                           ('l2sq', 0.25, 'I', 'nat'), ('l1', 0.5, 'I', 'pat')], xv=XV,
+                   solvers=PD4, no_accel=True, thorough_only=True),
     # lasso with the data term behind the operator: ||x||_1 + ||Mx - b||^2
     'lasso_g': dict(X=['rn3', 'rn3wa'], f=('l1', 1.0), absorb='g_data',
                     blocks=[('l2sq', 1.0, 'M', 'data')], xv=XV, solvers=PD4),
@@ -1500,12 +1628,22 @@ def _effective_steps(solver, P, st, cfg):
         _seed(cfg)
         tau, sigma = odl.solvers.pdhg_stepsize(L, st['tau'], st['sigma'])
         _seed(cfg)
-        return (tau, sigma), tau * sigma * P.ref.Lnorm ** 2 < 1.0
+        est = L.norm(estimate=True)
+        _seed(cfg)
+        if tau * sigma * P.ref.Lnorm ** 2 < 1.0:
+            return (tau, sigma), True
+        # inadmissible: the rule's fault unless the power-method estimate itself is poor
+        return (tau, sigma), (None if est < EST_OK * P.ref.Lnorm else False)
     if solver == DR and (st['tau'] is None or st['sigma'] is None):
         _seed(cfg)
         tau, sigma = odl.solvers.douglas_rachford_pd_stepsize(P.L_list, st['tau'], st['sigma'])
         _seed(cfg)
-        return (tau, sigma), tau * sum(s * nr ** 2 for s, nr in zip(sigma, P.norms)) < 4.0
+        ests = [Li.norm(estimate=True) for Li in P.L_list]
+        _seed(cfg)
+        if tau * sum(s * nr ** 2 for s, nr in zip(sigma, P.norms)) < 4.0:
+            return (tau, sigma), True
+        poor = any(e < EST_OK * nr for e, nr in zip(ests, P.norms))
+        return (tau, sigma), (None if poor else False)
     return None, True
 
 
@@ -1575,17 +1713,34 @@ def run_ns(cfg):
     live = not cfg.get('deg')
     for st in _grids(solver, P, tier):
         accel = bool(st.get('acc'))
+        if accel and fam.get('no_accel'):
+            continue
         site = '%s,%s]' % (site0, 'default-steps' if st['tag'] in ('default', 'tau-only',
                                                                     'sigma-only')
                            else ('accelerated-steps' if accel else 'explicit-steps'))
         info = 'problem=%s steps={%s}' % (
             dict((k, v) for k, v in cfg.items() if k not in ('kind', 'tier', 'K')), st['tag'])
         eff, adm = _effective_steps(solver, P, st, cfg)
-        if not adm:
-            # default rule gave steps outside the documented convergence condition because the
-            # power-method estimate is below the true norm: counted, not judged
+        if adm is None:
+            # power-method estimate more than 2.5 % below the true norm (random start, early
+            # stop on a plateau): the 10 % margin of the rule cannot absorb it; the property
+            # only bounds the estimate from above, so this is counted, not judged
             skipped += 1
+            sigs.add('%s:default-estimate-poor' % solver)
+            continue
+        if not adm:
+            # the default rule returned steps outside the condition its own docstring states
+            # ("Default: Sufficient for convergence"; the rule leaves a 10 % margin for the
+            # power-method estimate, which is within 1e-5 on these operators)
             sigs.add('%s:default-inadmissible' % solver)
+            _first(first, ('rule', site), (
+                'default_steps_violate_documented_condition',
+                '%s: default rule returned tau=%r sigma=%r; with the exact norms %s' % (
+                    info, eff[0], eff[1],
+                    'tau*sigma*|L|^2 = %r (must be < 1)' % (eff[0] * eff[1] * P.ref.Lnorm ** 2)
+                    if solver == PDHG else
+                    'tau*sum(sigma_i |L_i|^2) = %r (must be < 4)' % (
+                        eff[0] * sum(s_ * nr ** 2 for s_, nr in zip(eff[1], P.norms))))))
             continue
         try:
             # ---- (i) fixed point
@@ -1745,6 +1900,7 @@ def _pool(shape, alph):
 
 
 K_LIVE = 4000
+EST_OK = 0.975       # quality of Operator.norm(estimate=True) needed to judge a default rule
 K_ACC = 1500          # horizon of the accelerated pdhg runs (looser tolerances)
 COMBOS = [(0, 'plain'), (1, 'plain'), (0, 'w2'), (0, 'wa'), (1, 'wa'), (1, 'w2')]
 
@@ -1778,6 +1934,10 @@ def configs(tier):
                 base = {'shape': shape, 'mat': t, 'ill': ill, 'w': wk}
                 cfgs.append(dict(base, kind='cgn'))
                 cfgs.append(dict(base, kind='landweber'))
+                if t in red[:12 if thorough else 4]:
+                    # operators of small / large norm (default step rule)
+                    for asc in (0.25, 0.0625, 4.0):
+                        cfgs.append(dict(base, kind='landweber', ascale=asc))
                 if not thorough and ci > 0:
                     cfgs.append(dict(base, kind='kaczmarz', blocks='rows', order='given'))
                     continue
@@ -1828,6 +1988,11 @@ def configs(tier):
                 for ill in (0, 1):
                     cfgs.append({'kind': 'power', 'pool': 'rect', 'shape': shape, 'mat': t,
                                  'ill': ill, 'w': wk, 'arm': 'normal', 'deep': int(thorough)})
+    for c in RULE_NORMS:
+        cfgs.append({'kind': 'steprule', 'struct': 'single', 'norms': [c]})
+    for nb in RULE_BLOCKS:
+        for stt in ('broadcast', 'reduction', 'diagonal'):
+            cfgs.append({'kind': 'steprule', 'struct': stt, 'norms': nb})
     for spn in ('rn3', 'rn3w2', 'rn3wa', 'ud3', 'rn2'):
         cfgs.append({'kind': 'power_ref', 'space': spn, 'op': 'MultiplyOperator'})
         if spn in XSPACES and XSPACES[spn][0] == 'rn':
@@ -1889,7 +2054,7 @@ def configs(tier):
     return cfgs
 
 
-_RUN = {'power_ref': run_power_ref, 'cg': run_cg, 'cgn': run_cgn, 'landweber': run_landweber, 'kaczmarz': run_kaczmarz,
+_RUN = {'steprule': run_steprule, 'power_ref': run_power_ref, 'cg': run_cg, 'cgn': run_cgn, 'landweber': run_landweber, 'kaczmarz': run_kaczmarz,
         'smooth': run_smooth, 'linesearch': run_linesearch, 'power': run_power, 'ns': run_ns}
 
 
@@ -1984,6 +2149,14 @@ def meta(tier):
                                    '(estimate_step=True); ConstantLineSearch / float / '
                                    'LineSearchFromIterNum with steps in (0, 2/Lip) for '
                                    'steepest_descent on the quadratic objectives',
+            'default_step_rules': 'pdhg_stepsize / douglas_rachford_pd_stepsize judged directly: single '
+                                  'operators of norm {1/4,1/2,1,2,8}, Broadcast / Reduction / '
+                                  'Diagonal operators of 2-4 blocks (equal, similar, very '
+                                  'different norms), every given / not given combination of tau, '
+                                  'sigma, operators and floats; landweber default omega observed '
+                                  'from the first step on operators scaled by {1/4, 1/16, 4}; a '
+                                  'verdict needs Operator.norm(estimate=True) >= 0.975 ||L|| '
+                                  '(otherwise counted as unspecified)',
             'cg_iterations': 'n + 2', 'cgn_iterations': 'n + 2', 'landweber_iterations': 8,
             'kaczmarz_sweeps': 3,
             'landweber_omega*|A|^2': LW_OMEGA + ['default'],
